@@ -62,7 +62,14 @@ def build_mesh(world):
     from mouette.mesh.mesh_data import RawMeshData
     data = RawMeshData()
     data.vertices += [list(p) for p in world["points"]]
-    data.cells += [list(c) for c in world["cells"]]
+    fl = world.get("flavour", "list")
+    if fl == "tuple":
+        data.cells += [tuple(c) for c in world["cells"]]
+    elif fl == "numpy":
+        import numpy as np
+        data.cells += [np.array(c) for c in world["cells"]]
+    else:
+        data.cells += [list(c) for c in world["cells"]]
     return M.mesh.VolumeMesh(data)
 
 
@@ -122,7 +129,7 @@ class C03(Sim):
         if "boundary" in cl and rng.chance(0.5):
             p2, c2, m2 = volgen.gen_tets(rng.fork("world2"), rng.choice([1, 4, 8]))
             world2 = {"points": p2, "cells": c2, "orient": m2}  # a second, unrelated volume in the same process (cross-object histories)
-        return {"world": {"points": pts, "cells": cells, "orient": mode}, "world2": world2, "sort": rng.chance(0.8), "clients": cl,
+        return {"world": {"points": pts, "cells": cells, "orient": mode, "flavour": rng.wchoice(["list", "tuple", "numpy"], [3, 1, 1])}, "world2": world2, "sort": rng.chance(0.8), "clients": cl,
                 "max_steps": rng.randint(5, 35 if tier == "quick" else 70), "burst": rng.choice([0.2, 0.5, 0.8]),
                 "miss_rate": rng.choice([0.1, 0.3]), "drop_rate": rng.choice([0.05, 0.15, 0.3]),
                 "ops_off": rng.subset(sorted(Q), 0.15), "n_fresh": rng.randint(1, 5)}
